@@ -87,3 +87,44 @@ pub fn oneshot<T>() -> (OneshotSender<T>, OneshotReceiver<T>) {
     let (tx, rx) = tokio::sync::oneshot::channel();
     (OneshotSender(tx), rx)
 }
+
+/// `tokio::sync::broadcast` (the default output port's channel) with a scheduling point before every
+/// `send` and every `recv`
+pub mod pubsub {
+    use super::point;
+    use super::PointKind;
+    pub use tokio::sync::broadcast::error;
+
+    #[derive(Debug)]
+    pub struct Sender<T>(tokio::sync::broadcast::Sender<T>);
+    #[derive(Debug)]
+    pub struct Receiver<T>(tokio::sync::broadcast::Receiver<T>);
+
+    pub fn channel<T: Clone>(capacity: usize) -> (Sender<T>, Receiver<T>) {
+        let (tx, rx) = tokio::sync::broadcast::channel(capacity);
+        (Sender(tx), Receiver(rx))
+    }
+
+    impl<T: Clone> Sender<T> {
+        fn id(&self) -> usize {
+            self as *const Self as usize
+        }
+        pub fn subscribe(&self) -> Receiver<T> {
+            Receiver(self.0.subscribe())
+        }
+        pub fn receiver_count(&self) -> usize {
+            self.0.receiver_count()
+        }
+        pub fn send(&self, v: T) -> Result<usize, error::SendError<T>> {
+            point(PointKind::Channel, "broadcast.send", self.id());
+            self.0.send(v)
+        }
+    }
+
+    impl<T: Clone> Receiver<T> {
+        pub async fn recv(&mut self) -> Result<T, error::RecvError> {
+            point(PointKind::Channel, "broadcast.recv", self as *const Self as usize);
+            self.0.recv().await
+        }
+    }
+}
